@@ -5,6 +5,7 @@ import (
 	"errors"
 	"fmt"
 	"strings"
+	"time"
 
 	"github.com/ajitpratap0/GoSQLX/pkg/gosqlx"
 	"github.com/ajitpratap0/GoSQLX/pkg/sql/ast"
@@ -114,6 +115,81 @@ func runC11(c *runCtx) {
 				if fam.name == "statements" && p2-p1 < (3*n)/4 {
 					res.fail("poll-density:parser", fmt.Sprintf("ParseContext polls the context %d times for %d statements and %d times for %d", p1, n, p2, 4*n),
 						map[string]any{"family": fam.name, "n": n}, map[string]any{"polls_n": p1, "polls_4n": p2})
+				}
+			}
+		}
+	}
+	// a context that is done before the call: every entry point that takes a context refuses with the context's error,
+	// whatever the text is — empty, blank, comments only, lexically wrong, over the size limit, or an ordinary statement
+	{
+		big := make([]byte, tokenizer.MaxInputSize+1)
+		for i := range big {
+			big[i] = ' '
+		}
+		copy(big, "SELECT 1")
+		texts := [][]byte{nil, {}, []byte(" "), []byte("\n\t \r\n"), []byte("-- c"), []byte("-- c\n"), []byte("/* c */"), []byte("/* a */ -- b\n /* c */ "), []byte("/* open"), []byte(";"),
+			[]byte("SELECT 1"), []byte("SELECT 'open"), []byte("SELECT FROM"), []byte("\xff\xfe"), big}
+		for ti, text := range texts {
+			for _, cause := range causes {
+				for mode := 0; mode < 3; mode++ {
+					var ctx context.Context
+					var stop func()
+					switch mode {
+					case 0:
+						ctx = &pollCtx{Context: context.Background(), k: 0, err: cause}
+					case 1:
+						if cause == context.Canceled {
+							c2, cancel := context.WithCancel(context.Background())
+							cancel()
+							ctx, stop = c2, func() {}
+						} else {
+							c2, cancel := context.WithDeadline(context.Background(), time.Now().Add(-time.Second))
+							ctx, stop = c2, cancel
+						}
+					case 2:
+						if ti%2 == 1 {
+							continue
+						}
+						ctx = &pollCtx{Context: context.Background(), k: 0, err: cause}
+					}
+					name := fmt.Sprintf("len=%d %q", len(text), truncate(string(text), 30))
+					wit := map[string]any{"text": name, "cause": cause.Error(), "context": []string{"poll-counting", "real", "poll-counting, pooled tokenizer"}[mode]}
+					res.count(fmt.Sprintf("done-before|%d|%v|%d", ti, cause, mode), true)
+					var tk *tokenizer.Tokenizer
+					if mode == 2 {
+						tk = tokenizer.GetTokenizer()
+					} else {
+						tk, _ = tokenizer.New()
+					}
+					toks, err := tk.TokenizeContext(ctx, text)
+					if mode == 2 {
+						tokenizer.PutTokenizer(tk)
+					}
+					if toks != nil || err == nil || !errors.Is(err, cause) {
+						res.fail("done-before-call:Tokenizer.TokenizeContext", "the context was done before the call: tokens were returned, or the error is not the context's", wit, fmt.Sprint(err))
+					}
+					if len(text) <= 1000 {
+						if mode == 0 {
+							ctx = &pollCtx{Context: context.Background(), k: 0, err: cause}
+						}
+						tree, perr := gosqlx.ParseWithContext(ctx, string(text))
+						if tree != nil || perr == nil || !errors.Is(perr, cause) {
+							res.fail("done-before-call:gosqlx.ParseWithContext", "the context was done before the call: a tree was returned, or the error is not the context's", wit, fmt.Sprint(perr))
+						}
+						plain, _ := tokenizer.New()
+						if mt, terr := plain.Tokenize(text); terr == nil {
+							if mode == 0 {
+								ctx = &pollCtx{Context: context.Background(), k: 0, err: cause}
+							}
+							tree, perr := parser.NewParser().ParseContextFromModelTokens(ctx, mt)
+							if tree != nil || perr == nil || !errors.Is(perr, cause) {
+								res.fail("done-before-call:Parser.ParseContextFromModelTokens", "the context was done before the call: a tree was returned, or the error is not the context's", wit, fmt.Sprint(perr))
+							}
+						}
+					}
+					if stop != nil {
+						stop()
+					}
 				}
 			}
 		}
